@@ -86,7 +86,7 @@ func tryReplay(o options, w *World, ob *Obligation, rep map[string]interface{}) 
 	sentinels := vc.sentinelsInContract()
 	src := vc.replaySource(vals, ins[0].name == "self" && sig.Recv() != nil, pn, sentinels)
 	pkgDir := filepath.Dir(w.fset.Position(vc.fi.Decl.Pos()).Filename)
-	outDir := filepath.Join(o.verif, "out", "replay")
+	outDir := filepath.Join(o.outBase, "replay")
 	os.MkdirAll(outDir, 0o755)
 	testFile := filepath.Join(outDir, sanitize(ob.Name)+"_test.go")
 	os.WriteFile(testFile, []byte(src), 0o644)
